@@ -4,3 +4,5 @@ set -e
 export CARGO_NET_OFFLINE=true
 cd /verif/mc
 cargo build --release --bin mc
+# the real c2patool binary (check C32), in its own target dir, built from /repo's working tree
+/verif/tools/build_c2patool.sh >/dev/null
